@@ -333,7 +333,15 @@ impl<'a> Model<'a> {
                         };
                     }
                     CalcResult::EmptyCell | CalcResult::EmptyArg => 0.0,
-                    CalcResult::Array(_) | CalcResult::Lambda(_) => unreachable!(),
+                    // arrays are handled by the arm above
+                    CalcResult::Array(_) => unreachable!(),
+                    CalcResult::Lambda(_) => {
+                        return CalcResult::Error {
+                            error: Error::VALUE,
+                            origin: cell,
+                            message: "Expected a value, got a function".to_string(),
+                        };
+                    }
                 };
                 let format_code = match self.get_string(&args[1], cell) {
                     Ok(s) => s,
